@@ -1378,7 +1378,8 @@ def find_version(segments, error, eci, micro, is_sa=False):
     :rtype: int
     """
     assert not (eci and micro)
-    micro_allowed = micro or micro is None
+    # The ECI mode is not available for Micro QR Codes: never choose one if ECI is requested
+    micro_allowed = micro or (micro is None and not eci)
     min_version = consts.VERSION_M1 if micro_allowed else 1
     max_version = consts.VERSION_M4 if micro else 40
     if min_version < 1:
